@@ -243,7 +243,8 @@ func runC08(r *Run) {
 		if theme != nil || d1 != nil || d2 != nil {
 			mfs["theme.yml"] = &fstest.MapFile{Data: []byte(c08Yaml(theme))}
 			mfs["data/1.yml"] = &fstest.MapFile{Data: []byte(c08Yaml(d1))}
-			mfs["data/2.yml"] = &fstest.MapFile{Data: []byte(c08Yaml(d2))}
+			// the second data file under the names a site would give it (the later name in directory order either way)
+			mfs[[]string{"data/2.yml", "data/theme.yml", "data/site.yaml", "data/2.yml"}[c%4]] = &fstest.MapFile{Data: []byte(c08Yaml(d2))}
 		}
 		page := func(fm []KV) string {
 			if len(fm) == 0 {
